@@ -43,10 +43,12 @@ type FixData struct {
 	Mnem []string `json:"mnem"`
 	Ext  [][]byte `json:"ext"`
 	Desc [][]byte `json:"desc"`
+	W4   []byte   `json:"xsig_w4"`
+	W256 []byte   `json:"xsig_w256"`
 }
 
 func (f *Fix) data() *FixData {
-	d := &FixData{Msgs: f.Msgs, DSeal: f.DSeal, Mnem: f.Mnem, Desc: f.Desc}
+	d := &FixData{Msgs: f.Msgs, DSeal: f.DSeal, Mnem: f.Mnem, Desc: f.Desc, W4: f.XSigW[4], W256: f.XSigW[256]}
 	for i := range f.Seeds {
 		d.Seeds = append(d.Seeds, f.Seeds[i][:])
 	}
@@ -81,7 +83,7 @@ func (f *Fix) data() *FixData {
 }
 
 func fixFromData(d *FixData) *Fix {
-	f := &Fix{Msgs: d.Msgs, DSeal: d.DSeal, Mnem: d.Mnem, Desc: d.Desc}
+	f := &Fix{Msgs: d.Msgs, DSeal: d.DSeal, Mnem: d.Mnem, Desc: d.Desc, XSigW: map[uint32][]byte{4: d.W4, 256: d.W256}}
 	f.Seeds = make([][48]byte, len(d.Seeds))
 	for i := range d.Seeds {
 		copy(f.Seeds[i][:], d.Seeds[i])
@@ -209,6 +211,7 @@ func genColdPlan(r *core.Rand, ep *Episode, st *Sites) *simsched.Plan {
 
 type coldOut struct {
 	Results  [][]string     `json:"results"`
+	Alone    [][]string     `json:"alone,omitempty"` // per call: result in a process that ran only that call ("" = not taken)
 	Plan     *simsched.Plan `json:"plan,omitempty"`
 	Stats    simsched.Stats `json:"stats"`
 	SiteHit  []int          `json:"site_hit,omitempty"`
@@ -278,10 +281,30 @@ func coldRun(epJSON, planJSON, fixPath, sitesPath, refJSON string) {
 			out.ByClass[classIdx(st.Sites[s].Class)] += uint64(c)
 		}
 	}
-	if w, d := diffResults(ref.Results, o.Results, &ep); w != "" {
+	// the sequential reference process against each call truly alone
+	for t := range ref.Alone {
+		for i := range ref.Alone[t] {
+			if a := ref.Alone[t][i]; a != "" && a != ref.Results[t][i] && len(out.Viol) == 0 {
+				out.Viol = append(out.Viol, Violation{Property: "C15", Oracle: "history-dependent-result", Where: fmt.Sprintf("task%d/call%d", t, i), Detail: fmt.Sprintf("%s: alone in a fresh process %s, after other calls in one process %s", ep.Tasks[t][i].K, short(a), short(ref.Results[t][i])), Signature: "history-dependent-result:" + ep.Tasks[t][i].K})
+			}
+		}
+	}
+	expect := ref.Results
+	if len(ref.Alone) == len(ref.Results) {
+		expect = make([][]string, len(ref.Results))
+		for t := range ref.Results {
+			expect[t] = append([]string(nil), ref.Results[t]...)
+			for i, a := range ref.Alone[t] {
+				if a != "" {
+					expect[t][i] = a
+				}
+			}
+		}
+	}
+	if w, d := diffResults(expect, o.Results, &ep); w != "" && len(out.Viol) == 0 {
 		t, i := 0, 0
 		fmt.Sscanf(w, "task%d/call%d", &t, &i)
-		out.Viol = append(out.Viol, Violation{Property: "C15", Oracle: "cold-result-differs-from-alone", Where: w, Detail: "first use in a fresh process under a schedule vs. the same calls run alone in another fresh process: " + d, Signature: "cold-result-differs-from-alone:" + ep.Tasks[t][i].K})
+		out.Viol = append(out.Viol, Violation{Property: "C15", Oracle: "cold-result-differs-from-alone", Where: w, Detail: "first use in a fresh process under a schedule vs. the same call run alone in a fresh process: " + d, Signature: "cold-result-differs-from-alone:" + ep.Tasks[t][i].K})
 	}
 	if o.Shared != shared0 {
 		out.Viol = append(out.Viol, Violation{Property: "C15", Oracle: "shared-input-modified", Where: "cold scheduled run", Detail: "a caller-owned shared input changed", Signature: "shared-input-modified:cold"})
